@@ -46,3 +46,11 @@ Theorem C19_scope_exit_once : forall ops,
    (fired (sx_run ops) = 1 /\ cancelled (sx_run ops) = 0) \/ (fired (sx_run ops) = 0 /\ cancelled (sx_run ops) = 1)).
 Proof. intros ops. split; [apply sx_never_twice|apply sx_exactly_once]. Qed.
 Print Assumptions C19_scope_exit_once.
+
+(* the per-sandbox transition state reaches the hooks BY REFERENCE: whatever a hook does to the state it is handed
+   ([f], any function), the k-th notification of a sandbox observes that sandbox's initial state with [f] applied k
+   times - for every event sequence, in particular every run of every call tree *)
+Theorem C19_state_by_reference : forall (f : nat -> nat) (init : nat -> nat) evs,
+  thread_states f init evs = expected_states f init [] evs.
+Proof. intros. apply thread_states_expected. intros s. reflexivity. Qed.
+Print Assumptions C19_state_by_reference.
